@@ -437,7 +437,11 @@ func (p *parser) parseForExpression() ast.Expression {
 	}
 
 	ln := p.curToken.LineNumber
+	// break/continue are legal until the end of this loop; afterwards whatever
+	// held for the enclosing construct holds again
+	outerInForBlock := p.inForBlock
 	p.inForBlock = true
+	defer func() { p.inForBlock = outerInForBlock }()
 	s := []string{}
 
 	for !p.curTokenIs(token.RPAREN) {
@@ -487,8 +491,6 @@ func (p *parser) parseForExpression() ast.Expression {
 	if p.curTokenIs(token.RBRACE) {
 		p.nextToken()
 	}
-
-	p.inForBlock = false
 
 	return expression
 }
@@ -596,7 +598,10 @@ func (p *parser) parseFunctionLiteral() ast.Expression {
 	}
 
 	lit.Parameters = p.parseFunctionParameters()
+	// a function body is not part of an enclosing loop
+	outerInForBlock := p.inForBlock
 	p.inForBlock = false
+	defer func() { p.inForBlock = outerInForBlock }()
 
 	if !p.expectPeek(token.LBRACE) {
 		return nil
